@@ -270,8 +270,8 @@ Section ApiFacts.
   Qed.
 
   (* clear_markings edits the EXPANDED markings in place: they are new dicts *)
-  Lemma clear_loop_keeps : forall sels b ems h h',
-    Forall (fresh_ref b) ems -> clear_loop sels ems h = Some h' -> keeps b h h'.
+  Lemma clear_loop_keeps : forall mr lg sels b ems h h',
+    Forall (fresh_ref b) ems -> clear_loop mr lg sels ems h = Some h' -> keeps b h h'.
   Proof.
     induction ems as [|[a|d] rest IH]; simpl; intros h h' F H.
     - inversion H. apply keeps_refl.
@@ -291,10 +291,10 @@ Section ApiFacts.
       eapply keeps_trans; [exact K1|]. eapply keeps_trans; [exact K2|]. eauto.
   Qed.
 
-  Lemma granular_clear_grows : forall obj selectors h h' res,
-    granular_clear vt W obj selectors h = (h', res) -> grows h h'.
+  Lemma granular_clear_f_grows : forall mr lg obj selectors h h' res,
+    granular_clear_f vt W mr lg obj selectors h = (h', res) -> grows h h'.
   Proof.
-    unfold granular_clear, bindv. intros obj selectors h h' res H.
+    unfold granular_clear_f, bindv. intros mr lg obj selectors h h' res H.
     match type of H with (if ?c then _ else _) = _ => destruct c end; [leaf|].
     match type of H with context [expand_markings ?o h] => destruct (expand_markings o h) as [h1 r1] eqn:E1 end.
     destruct (expand_markings_spec _ _ _ _ E1) as [G1 S1].
@@ -311,6 +311,10 @@ Section ApiFacts.
     destruct r3; try (kleaf K3; fail).
     apply keeps_grows. eapply keeps_then_grows; [exact K3|]. eapply new_version_gm_grows; eauto.
   Qed.
+
+  Lemma granular_clear_grows : forall obj selectors h h' res,
+    granular_clear vt W obj selectors h = (h', res) -> grows h h'.
+  Proof. unfold granular_clear. intros. eapply granular_clear_f_grows; eauto. Qed.
 
   (* ---------------- markings/object_markings ---------------- *)
   Lemma object_add_grows : forall obj marking h h' res, object_add vt W obj marking h = (h', res) -> grows h h'.
@@ -398,13 +402,25 @@ Section ApiFacts.
     apply keeps_grows. eapply keeps_then_grows; [exact K7|]. eapply new_version_gm_grows; eauto.
   Qed.
 
+  Lemma granular_set_f_grows : forall mr lg obj marking selectors h h' res,
+    granular_set_f vt W mr lg obj marking selectors h = (h', res) -> grows h h'.
+  Proof.
+    unfold granular_set_f, bindv. intros mr lg obj marking selectors h h' res H.
+    destruct (granular_clear_f vt W mr lg obj selectors h) as [h1 r1] eqn:E1.
+    assert (G1 := granular_clear_f_grows _ _ _ _ _ _ _ E1).
+    destruct r1; try leaf. eapply grows_trans; [exact G1|]. eapply granular_add_grows; eauto.
+  Qed.
+
   Lemma granular_set_grows : forall obj marking selectors h h' res,
     granular_set vt W obj marking selectors h = (h', res) -> grows h h'.
+  Proof. unfold granular_set. intros. eapply granular_set_f_grows; eauto. Qed.
+
+  Lemma deduplicate_grows : forall lst h h' res, deduplicate lst h = (h', res) -> grows h h'.
   Proof.
-    unfold granular_set, bindv. intros obj marking selectors h h' res H.
-    destruct (granular_clear vt W obj selectors h) as [h1 r1] eqn:E1.
-    assert (G1 := granular_clear_grows _ _ _ _ _ E1).
-    destruct r1; try leaf. eapply grows_trans; [exact G1|]. eapply granular_add_grows; eauto.
+    unfold deduplicate. intros lst h h' res H.
+    destruct (list_items h lst) as [xs|]; [|leaf].
+    destruct (dedup_loop h xs []) as [t|]; [|leaf].
+    dalloc H as h1 l Ea. leaf. eapply alloc_grows; eauto.
   Qed.
 
   Lemma object_set_grows : forall obj marking h h' res,
